@@ -187,6 +187,12 @@ impl Pattern {
         self.anchored_regex.is_partial_match(path)
     }
 
+    /// Returns true if `.` in the underlying regular expression matches also a newline character,
+    /// i.e. if a trailing `.*` really matches everything
+    pub fn dot_matches_new_line(&self) -> bool {
+        self.dot_matches_new_line
+    }
+
     /// Returns true if this pattern fully matches a prefix of the given path
     pub fn matches_prefix(&self, path: &str) -> bool {
         self.prefix_regex.is_match(path)
